@@ -102,6 +102,18 @@ impl PhysLayer {
         Ok(length)
     }
 
+    /// Serial only: wait until the silence that must separate two frames on the line has passed
+    /// (`write` does the same; a caller that has to bound or order the transmission waits here first)
+    pub(crate) async fn wait_inter_frame_delay(&mut self) {
+        match &mut self.layer {
+            #[cfg(feature = "serial")]
+            PhysLayerImpl::Serial(_, inter_char_delay, Some(last_activity)) => {
+                tokio::time::sleep_until(*last_activity + *inter_char_delay).await;
+            }
+            _ => {}
+        }
+    }
+
     pub(crate) async fn write(
         &mut self,
         data: &[u8],
